@@ -113,7 +113,7 @@ func (params Params) validateMintersEndTimeValue(minter *Minter, sequenceId int,
 
 func (params Params) ContainsMinter(sequenceId uint32) bool {
 	for _, minter := range params.Minters {
-		if sequenceId == minter.SequenceId {
+		if minter != nil && sequenceId == minter.SequenceId {
 			return true
 		}
 	}
